@@ -12,7 +12,7 @@ subprocess.run("git -C /repo worktree remove --force %s 2>/dev/null; git -C /rep
 try:
     demo = [f for f in os.listdir(src) if f.startswith("demo")][0]
     head = "".join(open(os.path.join(src, demo)).readlines()[:8])
-    dest = re.search(r"Copy to (\S+)", head).group(1).rstrip(";,.:")
+    dest = re.search(r"(?:Copy to|Destination:)\s*(\S+)", head).group(1).rstrip(";,.:")
     dest = re.sub(r"^/tmp/seed/[^/]+/", "", dest)   # some seeders name the path inside their own worktree
     run = re.search(r"(go test [^\n]*)", head).group(1).strip()
     patch = os.path.join(src, "patch.diff")
